@@ -99,6 +99,7 @@ pub fn stream(max_len: u32, large_weight: u32, rude: bool) -> BoxedStrategy<Stre
             resp,
             client_concurrent,
             server_concurrent,
+            dialog: None,
         })
         .boxed()
 }
@@ -208,6 +209,7 @@ pub fn net(lossy_forever_pct: u32) -> BoxedStrategy<NetCase> {
             down,
             blackholes: blackholes.clone(),
             single: None,
+            targeted: vec![],
         })
     })
     .boxed()
@@ -246,13 +248,14 @@ fn small_udp_case() -> BoxedStrategy<Case> {
             clients: vec![ClientCase {
                 mtu: 1500,
                 start_us: 0,
-                streams: vec![StreamCase { start_us: 0, req, resp, client_concurrent: cc, server_concurrent: sc }],
+                streams: vec![StreamCase { start_us: 0, req, resp, client_concurrent: cc, server_concurrent: sc, dialog: None }],
             }],
             net: NetCase {
                 up: Tape { faults: up, repeat: false },
                 down: Tape { faults: down, repeat: false },
                 blackholes: vec![],
                 single: None,
+            targeted: vec![],
             },
             loss: None,
         })
@@ -305,6 +308,7 @@ pub fn peer_loss_case() -> BoxedStrategy<Case> {
                 down: Tape { faults: d, repeat: false },
                 blackholes: vec![],
                 single: None,
+            targeted: vec![],
             })
             .boxed(),
     ];
@@ -330,6 +334,127 @@ pub fn tcp_case() -> BoxedStrategy<Case> {
             clients,
             net: NetCase::default(),
             loss: None,
+        })
+        .boxed()
+}
+
+// ---------------------------------------------------------------------------------------
+// dialogues on open streams + targeted multi-faults
+
+/// stream-space packets one endpoint sends for `len` wire bytes at least (connect prelude or
+/// nothing, full-sized data packets, the end of the stream); chunked writes only add packets
+fn est_packets(len: u32, mtu: u16) -> u32 {
+    2 + len / (mtu as u32).saturating_sub(100).max(1)
+}
+
+/// one group of targeted faults: a stream-space packet and its first `depth - 1`
+/// retransmissions
+#[derive(Clone, Debug)]
+struct Group {
+    up: bool,
+    /// position of the stream packet in the direction, in 1/256 of the estimated packet count
+    frac: u8,
+    depth: u8,
+    /// fault of the retransmissions (the original is always dropped)
+    again: Fault,
+    /// an acknowledgement / flow credit datagram of the other direction is lost as well
+    control: Option<u16>,
+}
+
+fn group() -> BoxedStrategy<Group> {
+    (
+        prop::bool::weighted(0.7),
+        prop_oneof![2 => 0u8..=40, 3 => any::<u8>()],
+        prop_oneof![1 => Just(1u8), 5 => Just(2u8), 2 => Just(3u8), 1 => Just(4u8)],
+        prop_oneof![8 => Just(Fault::Drop), 1 => (1u8..=200).prop_map(Fault::Delay), 1 => Just(Fault::Dup)],
+        prop_oneof![9 => Just(None), 1 => (0u16..=30).prop_map(Some)],
+    )
+        .prop_map(|(up, frac, depth, again, control)| Group { up, frac, depth, again, control })
+        .boxed()
+}
+
+fn dialog_stream(max_len: u32) -> BoxedStrategy<StreamCase> {
+    (
+        stream(max_len, 1, false),
+        prop::bool::weighted(0.1),
+        stream(max_len, 1, true),
+        // 0 = no dialogue, 1 = nothing before the response, 2 = a part, 3 = the whole request
+        prop_oneof![1 => Just(0u8), 1 => Just(1u8), 3 => Just(2u8), 5 => Just(3u8)],
+        any::<u16>(),
+    )
+        .prop_map(|(polite, be_rude, rude, mode, part)| {
+            let mut s = if be_rude { rude } else { polite };
+            s.dialog = match mode {
+                0 => None,
+                1 => Some(Dialog { first: 0 }),
+                2 => Some(Dialog { first: (s.req.len as u64 * part as u64 / 65_536) as u32 }),
+                _ => Some(Dialog { first: s.req.len }),
+            };
+            s
+        })
+        .boxed()
+}
+
+/// `udp_dialog_retx`: request/response dialogues on open streams (the writer is idle in the
+/// middle of its stream while it waits for the peer); faults are groups "the k-th stream-space
+/// packet of a direction and its first retransmissions", optionally on top of a light tape
+pub fn dialog_case() -> BoxedStrategy<Case> {
+    let streams = prop_oneof![
+        3 => prop::collection::vec(dialog_stream(120_000), 1..=1),
+        1 => prop::collection::vec(dialog_stream(60_000), 1..=3),
+    ];
+    let mtus = prop_oneof![
+        6 => proptest::sample::select(vec![1250u16, 1400, 1472, 1500, 9000]),
+        3 => 1250u16..=1600,
+        1 => mtu(true),
+    ];
+    let client = (mtus.clone(), prop_oneof![4 => Just(0u32), 1 => 0u32..=20_000], streams)
+        .prop_map(|(mtu, start_us, streams)| ClientCase { mtu, start_us, streams });
+    let clients = prop_oneof![
+        4 => prop::collection::vec(client.clone(), 1..=1),
+        1 => prop::collection::vec(client, 2..=2),
+    ];
+    let tapes = prop_oneof![
+        4 => Just((vec![], vec![])).boxed(),
+        1 => (prop::collection::vec(fault(false), 0..=60), prop::collection::vec(fault(false), 0..=60)).boxed(),
+    ];
+    (any::<u64>(), mtus, clients, prop::collection::vec(group(), 1..=3), tapes)
+        .prop_map(|(seed, server_mtu, clients, groups, (tu, td))| {
+            let mtu = clients.iter().map(|c| c.mtu).max().unwrap_or(1500).max(server_mtu);
+            let est = |resp: bool| -> u32 {
+                clients
+                    .iter()
+                    .flat_map(|c| c.streams.iter())
+                    .map(|s| est_packets(if resp { s.resp.len } else { s.req.len + 1 }, mtu))
+                    .sum()
+            };
+            let (est_up, est_down) = (est(false), est(true));
+            let mut targeted = vec![];
+            for g in &groups {
+                let est = if g.up { est_up } else { est_down };
+                let k = (g.frac as u32 * est / 256).min(u16::MAX as u32) as u16;
+                targeted.push(Targeted { up: g.up, target: Target::Nth { kind: PktKind::Stream, n: k }, fault: Fault::Drop });
+                for n in 0..g.depth.saturating_sub(1) {
+                    targeted.push(Targeted { up: g.up, target: Target::RetxOf { k, n: n as u16 }, fault: g.again });
+                }
+                if let Some(n) = g.control {
+                    targeted.push(Targeted { up: !g.up, target: Target::Nth { kind: PktKind::Control, n }, fault: Fault::Drop });
+                }
+            }
+            Case {
+                seed,
+                proto: Proto::Udp,
+                server_mtu,
+                clients,
+                net: NetCase {
+                    up: Tape { faults: tu, repeat: false },
+                    down: Tape { faults: td, repeat: false },
+                    blackholes: vec![],
+                    single: None,
+                    targeted,
+                },
+                loss: None,
+            }
         })
         .boxed()
 }
